@@ -290,7 +290,7 @@ func childPasteRes(vt *term.Model, which string) string {
 
 var childKeys = []vaxis.Key{
 	{Keycode: vaxis.KeyUp}, {Keycode: vaxis.KeyDown}, {Keycode: vaxis.KeyHome}, {Keycode: vaxis.KeyUp, Modifiers: vaxis.ModShift},
-	{Keycode: vaxis.KeyF01}, {Keycode: vaxis.KeyInsert}, {Keycode: 'a', Text: "a"},
+	{Keycode: vaxis.KeyF01}, {Keycode: vaxis.KeyInsert}, {Keycode: 'a', Text: "a"}, {Keycode: vaxis.KeyUp, EventType: vaxis.EventRelease},
 }
 
 var childMice = []vaxis.Mouse{
